@@ -697,6 +697,10 @@ class ExprMixin:
             return V(MOD, f'<global {m.relpath}:{attr}>')
         if isinstance(p, str):
             d = f'{p}.{attr}'
+            fv = getattr(self.reg, 'fact_values', {})
+            if d in fv and isinstance(fv[d], (int, str, bool)):
+                self.assumptions_used['fact:' + d] = f'external constant {d} = {fv[d]!r} (read from the installed package this run)'
+                return self.const(fv[d])
             if d in self.exc_codes:
                 return V(CLS, ('exc', d))
             r = self.resolve_dotted(d)
